@@ -97,14 +97,14 @@ CLAIMS["C09"] = dict(
 
 CLAIMS["C07"] = dict(
     category="proof",
-    text="Builder half: Board::try_from on a symbolic builder (quick tier: any of 13 contents on each of the 32 squares of ranks 1,2,7,8 — bounded, crowded boards included; thorough tier: all 64 squares, complete) with any side/rights/en-passant file never panics or reads out of bounds, succeeds exactly when the gatekeeper specification holds and then reproduces the builder's placement, side, rights, en-passant state, check/pin information and hash; is_sane is proved equal to that specification for every board the API can construct; every valid chess position satisfies it (code-independent lemma); every accepted board leaves room in the fixed-capacity move list (men + 2 <= real capacity) — the obligation that exposed the >16-men defect, repaired by a fix: commit. Text half, bounded: coordinate/square parsers total on short UTF-8 text (C13 obligations).",
+    text="Builder half: Board::try_from on a symbolic builder (quick tier, two bounded variants: any of 13 contents on each of the 32 squares of ranks 1,2,7,8 — crowded boards included — and on the 32 squares of ranks 1,4,5,8 so that the en-passant filter clause is exercised non-vacuously; thorough tier: all 64 squares, complete) with any side/rights/en-passant file never panics or reads out of bounds, succeeds exactly when the gatekeeper specification holds and then reproduces the builder's placement, side, rights, en-passant state, check/pin information and hash; is_sane is proved equal to that specification for every board the API can construct; every valid chess position satisfies it (code-independent lemma); every accepted board leaves room in the fixed-capacity move list (men + 2 <= real capacity) — the obligation that exposed the >16-men defect, repaired by a fix: commit. Text half, bounded: coordinate/square parsers total on short UTF-8 text (C13 obligations).",
     design_ref="DESIGN.md §6 C07",
     note=TRUST + "modular: update_pin_info / is_sane used through their contracts inside try_from (O3.1 per king square — subset in the quick tier — and O5.1); FEN text parsing (BoardBuilder::from_str: split, contains, String) is NOT under contract — std String/Vec machinery is out of reach of CBMC within the budget and str is out of reach of Verus; safety of move generation on accepted boards rests on the capacity obligation O7.4 plus the move-list slot bound argued in DESIGN.md (one slot per man + two en-passant slots), not yet mechanised.",
     technique="Kani/CBMC contract on TryFrom<&BoardBuilder> over a fully symbolic builder with callees replaced by their proved contracts; exact functional contract on is_sane; capacity obligation against the real ArrayVec type",
 )
 CLAIMS["C05"] = dict(
     category="proof",
-    text="Step obligations, all inputs: both move-application entry points produce the rule-prescribed successor (O2.1a/O2.2a) with structural monotonicity clauses (opponent's men and pawns only disappear, the mover's men are permuted, rights only shrink); code-independent lemma: the successor of a valid position under a legal move is valid again (kings, pawn ranks, rights backed, en-passant consistent, mover not in check); is_sane is proved equal to the gatekeeper specification, which every valid position satisfies. The lift to all histories is the induction over the move sequence on these step contracts.",
+    text="Step obligations, all inputs: both move-application entry points produce the rule-prescribed successor (O2.1a/O2.2a) with structural monotonicity clauses (opponent's men and pawns only disappear, the mover's men are permuted, rights only shrink); code-independent lemma: the successor of a valid position under a legal move is valid again (kings, pawn ranks, rights backed, en-passant consistent, mover not in check); is_sane is proved equal to the gatekeeper specification, which every valid position satisfies; the check information the generator's legality filter relies on is exact after every move (pre-scan contract O2.1c/O2.2c with a symbolic king + Verus scan proofs O2.1t/O2.2t), and the producer loops are the Verus proofs of C01 (included here). The lift to all histories is the induction over the move sequence on these step contracts.",
     design_ref="DESIGN.md §6 C05",
     note=TRUST + "the induction over histories and the arithmetic step |A - x + y| = |A| are stated, not mechanised; 'generated moves are legal' is C01; placement obligations use the frame assumption of O2.1a in the quick tier (discharged in thorough).",
     technique="Kani/CBMC step contracts on make_move_new/make_move and is_sane + code-independent validity-preservation lemma over the chess specification",
@@ -119,7 +119,7 @@ CLAIMS["C01"] = dict(
 )
 CLAIMS["C04"] = dict(
     category="proof",
-    text="Board::status is extracted from the real source and verified by Verus against the definition (no legal move and in check -> Checkmate; no legal move and not in check -> Stalemate; otherwise Ongoing) with MoveGen::new_legal(..).len() imported through the contracts proved in C01 (move set) and C14 (len exact on a fresh generator) and 'checkers empty iff not in check' from C03; a Kani obligation checks the same on the unextracted code with new_legal replaced by its contract (bounded to 3 slots).",
+    text="Board::status is extracted from the real source and verified by Verus against the definition (no legal move and in check -> Checkmate; no legal move and not in check -> Stalemate; otherwise Ongoing) with MoveGen::new_legal(..).len() imported through the contracts proved in C01 (move set) and C14 (len exact on a fresh generator) and 'checkers empty iff not in check' from C03; a Kani obligation checks the same on the unextracted code with new_legal replaced by its contract (bounded to 3 slots). Because 'has no legal move' is only as good as the generator, this check also runs the legality leaves of C01 (legal_king_move, legal_ep_move, pseudo_legals against the rules spec, all placements), the Verus producer-loop and dispatch proofs of C01, and the make_move check-information obligations (O2.1c + Verus tail + per-king O2.1b).",
     design_ref="DESIGN.md §6 C04",
     note=TRUST + "composition: relies on the imported contracts of new_legal/len (C01, C14) and the checkers invariant (C03), listed as assumed in this unit and discharged by those properties' obligations.",
     technique="Verus contract on the extracted Board::status with callee contracts imported + Kani cross-check with the generator stubbed by its contract",
@@ -151,7 +151,7 @@ CLAIMS["C17"] = dict(
 
 CLAIMS["C06"] = dict(
     category="proof",
-    text="Rendering half. Display::fmt of the builder is under contract (Kani, bytes captured in a fixed sink) for every side to move and en-passant file — the field is '-' or the passed-over square on rank 3/6 as the FEN standard specifies (the obligation that exposed the rank-4/5 defect, repaired by a fix: commit) — and for the castle-right combinations (KQkq subset or '-'; 6 of the 16 combinations per quick run, seed-rotated, all 16 in thorough), six well-formed fields. The en-passant STATE behind the field is covered by O2.1e/O2.1a (recorded only after a double push beside an enemy pawn, always when a legal capture exists) in C02. Structured half of the round trip: builder -> board reproduces placement, side, rights, en-passant, check/pin and hash for a fully symbolic builder (O7.1, C07), and from-scratch check/pin data equal the incrementally maintained data (O3.1 here, O2.1b in C03), which is what makes a position reached by play == the re-parsed one. Thorough tier adds the placement field with one symbolic man and Board -> builder.",
+    text="Rendering half. Display::fmt of the builder is under contract (Kani, bytes captured in a fixed sink) for every side to move and en-passant file — the field is '-' or the passed-over square on rank 3/6 as the FEN standard specifies (the obligation that exposed the rank-4/5 defect, repaired by a fix: commit) — and for the castle-right combinations (KQkq subset or '-'; 6 of the 16 combinations per quick run, seed-rotated, all 16 in thorough), six well-formed fields. The en-passant STATE behind the field is covered by O2.1e/O2.1a (recorded only after a double push beside an enemy pawn, always when a legal capture exists) in C02. Structured half of the round trip: builder -> board reproduces placement, side, rights, en-passant (recorded exactly when a pawn of the side to move stands beside the pushed pawn — the same filter move application uses; quick-tier variant O7.1e with symbolic ranks 1,4,5,8, run here), check/pin and hash for a fully symbolic builder (O7.1, thorough), and from-scratch check/pin data equal the incrementally maintained data (O3.1 here, O2.1b in C03), which is what makes a position reached by play == the re-parsed one. Thorough tier adds the placement field with one symbolic man and Board -> builder.",
     design_ref="DESIGN.md §6 C06",
     note=TRUST + "NOT under contract: FEN text PARSING (BoardBuilder::from_str — str::split / contains / String are out of reach of CBMC within a check's time budget and of Verus) and the placement field for more than one man (Piece::to_string/format!/to_uppercase); so 'parse(render(x)) == x' is decided for the structured conversions only, and reading a standard writer's FEN rests on the parser using only the FILE of the en-passant field (by inspection).",
     technique="Kani/CBMC byte-exact render contracts on Display::fmt through a fixed sink (en-passant, side, castling fields) + structured round-trip contracts on the builder conversions + check/pin from-scratch obligations",
